@@ -191,6 +191,9 @@ type obsRec struct {
 	Time time.Time
 	N    int // close-ret: which Close call
 	Thr  int // scheduler thread that produced the record
+	// handler: the datagram whose Process call this handler was called from (same thread, first matching handler call
+	// inside that Process), nil if it was not called from inside a Process
+	During []byte
 	// reader/collector liveness sampled at close-ret
 	ReaderDone bool
 }
@@ -216,15 +219,16 @@ type txInst struct {
 }
 
 type cliWorld struct {
-	sc     cliScenario
-	log    []obsRec
-	insts  []*txInst
-	conn   *vConn
-	clock  *vClock
-	coll   *vCollector
-	agent  *vAgent
-	client *stun.Client
-	msgs   map[int]*stun.Message // per slot, the caller's message
+	processing map[int]*procCall
+	sc         cliScenario
+	log        []obsRec
+	insts      []*txInst
+	conn       *vConn
+	clock      *vClock
+	coll       *vCollector
+	agent      *vAgent
+	client     *stun.Client
+	msgs       map[int]*stun.Message // per slot, the caller's message
 	// deliveries the network performed: raw datagrams
 	delivered        [][]byte
 	closeRets        int
@@ -401,8 +405,29 @@ func (a *vAgent) Process(m *stun.Message) error {
 		a.w.rec(obsRec{Kind: "process-refused", Inst: -1, Data: append([]byte(nil), m.Raw...)})
 		return errInjAgentProcess
 	}
-	return a.a.Process(m)
+	// what the agent calls back from inside this Process call is caused by this datagram
+	if a.w.processing == nil {
+		a.w.processing = map[int]*procCall{}
+	}
+	tid := sched.CurrentID()
+	outer := a.w.processing[tid]
+	a.w.processing[tid] = &procCall{data: append([]byte(nil), m.Raw...), id: m.TransactionID}
+	err := a.a.Process(m)
+	if outer != nil {
+		a.w.processing[tid] = outer
+	} else {
+		delete(a.w.processing, tid)
+	}
+	return err
 }
+
+// procCall is a Process call in progress on one scheduler thread.
+type procCall struct {
+	data []byte
+	id   [12]byte
+	used bool
+}
+
 func (a *vAgent) Close() error {
 	err := a.a.Close()
 	if err == nil && a.w.sc.Opts.AgentCloseErr {
@@ -694,6 +719,10 @@ func (w *cliWorld) handlerFor(inst *txInst, idx int) stun.Handler {
 		if e.Message != nil {
 			r.Data = append([]byte(nil), e.Message.Raw...)
 			r.Attr = msgContent(e.Message)
+		}
+		if pc := w.processing[sched.CurrentID()]; pc != nil && !pc.used && pc.id == e.TransactionID {
+			pc.used = true
+			r.During = pc.data
 		}
 		pos := w.rec(r)
 		inst.HandlerN++
